@@ -242,7 +242,9 @@ def simplifyFree {γ ω : Type} (zero : α) (obs : List ω) (c : CostFn γ α) (
 /-! ### stop detection (`findStopsGlobal`) -/
 
 /-- what `findStopsGlobal` reads from the track and its parameters (geometry and clock not modelled: parameters).
-The second index is the LAST observation of the segment, `e = j − 1`. -/
+The second index is the LAST observation of the segment, `e = j − 1`. `findStopsGlobalForRTK` runs the same loops with
+`far` = `track[i].distanceTo(track[e]) > 3 * std_max`, `small` = `some (sqrt(var_x + var_y + var_z) < std_max)` and the
+final filter `C[a, b] != 0`. -/
 structure StopPred where
   /-- `track[i].distance2DTo(track[e]) > diameter` -/
   far : Nat → Nat → Bool
